@@ -30,6 +30,7 @@ def _is_conc(x):
         return type(x) in (str, int, bytes)
 
 
+FAST_CLASS = False  # opt-in: membership of a symbolic byte in a concrete class forks once (in / not in)
 NORMALISE = False   # opt-in (a props module sets lbytes.NORMALISE = True): see _norm
 
 
@@ -132,6 +133,12 @@ def _ranges(text):
 def _ord_in(o, text):
     """ordinal `o` (possibly symbolic) in the concrete character class `text`: a few range tests
     instead of one path per character"""
+    if FAST_CLASS and not _is_conc(o):
+        # one symbolic boolean (a z3 disjunction) instead of one path per range and per gap
+        acc = False
+        for lo, hi in _ranges(text):
+            acc = acc | ((lo <= o) & (o <= hi))
+        return True if acc else False
     for lo, hi in _ranges(text):
         if lo <= o <= hi:
             return True
@@ -762,6 +769,13 @@ def _fmt(f, args):
             out.append((spec + "s") % ascii(a if not isinstance(a, _LBase) else a.s.encode("latin-1")))
         elif conv == "c":
             out.append(chr(a) if isinstance(a, int) else _s(a))
+        elif (conv in "diu" and spec == "%" and isinstance(a, int) and not isinstance(a, bool)
+              and not _is_conc(a)):
+            # plain %d of a symbolic int: decimal digits by arithmetic (formatting would realise it)
+            if a < 0:
+                out.append("-" + _fmt_int_arith(-a, 10, False, 0, False))
+            else:
+                out.append(_fmt_int_arith(a, 10, False, 0, False))
         else:
             out.append((spec + conv) % a)
     out.append(f[pos:])
@@ -1234,34 +1248,37 @@ def _bitwise_arith(kind, a, b, width):
     return r
 
 
-_BITINFO = {}      # id(symbolic int) -> (the object, mask of the bits that can possibly be set)
-
-
-def _obj_id(x):
+def _notrace():
     tr = _sys.modules.get("crosshair.tracers")
-    if tr is None:
-        return id(x)
-    with tr.NoTracing():
-        return id(x)
+    return tr.NoTracing() if tr is not None else None
 
 
 def note_bits(x, mask):
-    """record that the non-negative symbolic int x has no bits set outside `mask` (derived from how it
-    was computed: `& mask`, shifts, ord() of a byte); lets `|` of bit-disjoint values become `+`"""
+    """record on the symbolic int x itself that it is non-negative and has no bits set outside `mask`
+    (derived from how it was computed: `& mask`, shifts, ord() of a byte); lets `|` of bit-disjoint
+    values become `+`.  Stored as an attribute of the object: no state outlives the path."""
     if not _is_conc(x):
-        if len(_BITINFO) > 20000:
-            _BITINFO.clear()
-        _BITINFO[_obj_id(x)] = (x, mask)
+        nt = _notrace()
+        if nt is not None:
+            with nt:
+                try:
+                    object.__setattr__(x, "_vl_bits", mask)
+                except (AttributeError, TypeError):
+                    pass
     return x
 
 
 def _known_bits(x):
     if _is_conc(x):
         return x if x >= 0 else None
-    e = _BITINFO.get(_obj_id(x))
-    if e is not None and e[0] is x:
-        return e[1]
-    return None
+    nt = _notrace()
+    if nt is None:
+        return None
+    with nt:
+        try:
+            return object.__getattribute__(x, "_vl_bits")
+        except AttributeError:
+            return None
 
 
 def _bitop(kind, a, b, real):
